@@ -3898,6 +3898,11 @@ Octagonal_Shape<T>
                                      coeff, term)) {
       continue;
     }
+    // Constraints having no variables at all do not correspond
+    // to any cell of the matrix (`coeff' is zero): they are ignored too.
+    if (num_vars == 0) {
+      continue;
+    }
 
     typedef typename OR_Matrix<N>::const_row_iterator Row_iterator;
     typedef typename OR_Matrix<N>::const_row_reference_type Row_reference;
